@@ -66,6 +66,9 @@ __CPROVER_ensures((__CPROVER_old(QI) != 0 && gh_DK < __CPROVER_old(dq_tail)) ==>
 /* normal mode: h runs first, then everything that became ready; no ready coroutine is left un-run; mode restored */
 __CPROVER_ensures(__CPROVER_old(QI) == 0 ==> (dq_head == dq_tail && gh_n_resume >= __CPROVER_old(gh_n_resume) + 1))
 __CPROVER_ensures((__CPROVER_old(QI) == 0 && gh_RK == __CPROVER_old(gh_n_resume)) ==> gh_res_trk == h)
+#ifdef CV_CHECK_C20
+__CPROVER_ensures(__CPROVER_old(QI) != 0 ==> gh_allocs == __CPROVER_old(gh_allocs))   /* C20-FINDING making a coroutine ready in coroutine mode must not allocate (the ready queue is a std::deque, which allocates a node every 64 pushes) */
+#endif
 ;
 #endif
 
